@@ -2,7 +2,8 @@
 """File behaviour-preserving refactorings (produced by independent sub-agents that saw only a property text and a scratch
 worktree) as permanent false-alarm regressions:  /verif/neutral/<RCxx-refN>/{patch.diff, meta.json}.
 
-usage: tools/file_neutral.py RC01 [RC02 ...]     (reads /tmp/wt/out/<RCxx>/ref*.diff)
+usage: tools/file_neutral.py [--src=/tmp/wt/out3 --tag=r2] RC01 [RC02 ...]     (reads <src>/<RCxx>/ref*.diff, default src /tmp/wt/out;
+       with --tag=r2 the ids are RCxx-r2refN)
 
 A patch is filed only if every claimed check is silent on the patched tree.  meta.json lists the properties whose analysed
 modules the patch touches; the self-test of those properties applies the patch and demands silence."""
@@ -40,12 +41,21 @@ def main():
     mods = modules_of_props()
     rc = 0
     import multiprocessing
-    paths = [p_ for d in sys.argv[1:] for p_ in sorted(glob.glob("/tmp/wt/out/%s/ref*.diff" % d))]
+    SRC, TAG = "/tmp/wt/out", ""
+    dirs = []
+    for a in sys.argv[1:]:
+        if a.startswith("--src="):
+            SRC = a.split("=", 1)[1]
+        elif a.startswith("--tag="):
+            TAG = a.split("=", 1)[1]
+        else:
+            dirs.append(a)
+    paths = [p_ for d in dirs for p_ in sorted(glob.glob("%s/%s/ref*.diff" % (SRC, d)))]
     with multiprocessing.get_context("fork").Pool(8) as pool:
         results = dict((r[0], r) for r in pool.map(one, paths))
-    for d in sys.argv[1:]:
-        for path in sorted(glob.glob("/tmp/wt/out/%s/ref*.diff" % d)):
-            sid = "%s-%s" % (d, os.path.basename(path)[:-5])
+    for d in dirs:
+        for path in sorted(glob.glob("%s/%s/ref*.diff" % (SRC, d))):
+            sid = "%s-%s%s" % (d, TAG, os.path.basename(path)[:-5])
             _p, hits, err = results[path]
             if err or hits:
                 print("%-14s NOT filed: %s" % (sid, err or sorted(hits)))
